@@ -490,8 +490,10 @@ UNITS['c17s'] = {'opaque': [' get_lock$', r'9vp_tracer5traceE'], 'dyn_types': [r
                  'stub_aliases': {'TRACE_STUB': r'^f_.*9vp_tracer5traceE'}}
 ob(name='scenario.tracer_object', kind='FC+', props=['C17', 'C14'], unit='c17s', harness='h_c17s.c', entry='c_trace', unwind=26, timeout=900, object_bits=12, defines={'VP_TOK_CAP': 24},
    bound='none for the argument values; one tracer object, one accepted call while it is alive and one after it died')
-UNITS['c13s'] = {'opaque': [' get_lock$'], 'dyn_types': [r'^sequence_handler<[01]>$', r'^lifetime_monitor$', r'^deathwatched<vp_vp_D>$'],
-                 'roots': {'C13_MACROS': '^_ZN14vp_trompeloeil13vp_c13_macrosE', 'OBS': 'rec:^vp_vp_obs$'}}
+UNITS['c13s'] = {'opaque': [' get_lock$'], 'dyn_types': [r'^sequence_handler<[01]>$', r'^lifetime_monitor$', r'^deathwatched<vp_vp_D>$', r'^call_matcher<void\(\),std::tuple<>>$'],
+                 'roots': {'C13_MACROS': '^_ZN14vp_trompeloeil13vp_c13_macrosE', 'C13_SEQ': '^_ZN14vp_trompeloeil15vp_c13_sequenceE', 'OBS': 'rec:^vp_vp_obs$'}}
+ob(name='scenario.sequenced_destruction', kind='FC+', props=['C13', 'C05', 'C06', 'C15'], unit='c13s', harness='h_c13s.c', entry='c_seq_destruction', unwind=8, timeout=900, object_bits=12,
+   bound='none: both orders (the object dies after / before the call it is sequenced behind); one sequence, one expectation, one requirement')
 ob(name='scenario.require_destruction_macros', kind='FC+', props=['C13', 'C15', 'C14'], unit='c13s', harness='h_c13s.c', entry='c_destruction', unwind=6, timeout=900, object_bits=12,
    bound='none: both cases (a requirement is alive / none is); one deathwatched object')
 ob(name='scenario.throw_clause', kind='FC+', props=['C08', 'C03', 'C14'], unit='c09', harness='h_c09.c', entry='c_throw', unwind=6, timeout=900, object_bits=12,
